@@ -63,6 +63,14 @@
 #include <utility>
 #include <vector>
 
+#if defined(QUILL_VERIF)
+/** Verification hook: scheduling points of the backend worker, defined by the verification harness */
+extern "C" void quill_verif_yield(int point) noexcept;
+  #define QUILL_VERIF_YIELD(p) ::quill_verif_yield(p)
+#else
+  #define QUILL_VERIF_YIELD(p) ((void)0)
+#endif
+
 QUILL_BEGIN_NAMESPACE
 
 class ManualBackendWorker; // Forward declaration
@@ -297,6 +305,7 @@ private:
           // that have not yet been cached in the transit event buffer. Logging only the cached
           // messages can result in out-of-order log entries, as messages with larger timestamps
           // in the queue might be missed.
+          QUILL_VERIF_YIELD(3);
         }
       }
     }
@@ -309,6 +318,8 @@ private:
 
       // check for any dropped messages / blocked threads
       _check_failure_counter(_options.error_notifier);
+
+      QUILL_VERIF_YIELD(4);
 
       // This is useful when BackendTscClock is used to keep it up to date
       _resync_rdtsc_clock();
@@ -415,6 +426,7 @@ private:
           // that have not yet been cached in the transit event buffer. Logging only the cached
           // messages can result in out-of-order log entries, as messages with larger timestamps
           // in the queue might be missed.
+          QUILL_VERIF_YIELD(3);
         }
       }
     }
@@ -428,6 +440,8 @@ private:
    */
   QUILL_ATTRIBUTE_HOT size_t _populate_transit_events_from_frontend_queues()
   {
+    QUILL_VERIF_YIELD(1);
+
     uint64_t const ts_now = _options.log_timestamp_ordering_grace_period.count()
       ? static_cast<uint64_t>((detail::get_timestamp<std::chrono::system_clock>() - _options.log_timestamp_ordering_grace_period)
                                 .count())
@@ -438,6 +452,8 @@ private:
     for (ThreadContext* thread_context : _active_thread_contexts_cache)
     {
       assert(thread_context->has_unbounded_queue_type() || thread_context->has_bounded_queue_type());
+
+      QUILL_VERIF_YIELD(2);
 
       if (thread_context->has_unbounded_queue_type())
       {
